@@ -262,6 +262,39 @@ fn main() {
                     run_fc(ctx, n, &f, &g);
                 }
             }
+            // every function of three variables on every triple of variables >= 4 (sparse, highly regular
+            // tables: equal, zero and complementary words everywhere), transformed on the variables of the
+            // triple and on one outside it
+            if (7..=if thorough { 12 } else { 10 }).contains(&n) {
+                let mut t = 0usize;
+                for a in 4..n {
+                    for b2 in a + 1..n {
+                        for c2 in b2 + 1..n {
+                            t += 1;
+                            if t % chunks != c {
+                                continue;
+                            }
+                            let outside = (0..n).find(|v| *v != a && *v != b2 && *v != c2).unwrap();
+                            for gg in (0..256u64).step_by(if thorough { 1 } else { 3 }) {
+                                let blocks = gen::small_support_blocks(n, &[a, b2, c2], gg);
+                                for ty in ["Lut", "LutN"] {
+                                    if ty == "LutN" && n > tbl::MAX_STATIC {
+                                        continue;
+                                    }
+                                    for v in [a, b2, c2] {
+                                        exec_dispatch(ctx, &Ev::new("flip", ty, n).tab(&blocks).int(v));
+                                        exec_dispatch(ctx, &Ev::new("cofactors", ty, n).tab(&blocks).int(v));
+                                        exec_dispatch(ctx, &Ev::new("swap", ty, n).tab(&blocks).int(v).int(outside));
+                                    }
+                                    exec_dispatch(ctx, &Ev::new("swap", ty, n).tab(&blocks).int(a).int(b2));
+                                    exec_dispatch(ctx, &Ev::new("swap", ty, n).tab(&blocks).int(b2).int(c2));
+                                    exec_dispatch(ctx, &Ev::new("swap", ty, n).tab(&blocks).int(c2).int(a));
+                                }
+                            }
+                        }
+                    }
+                }
+            }
         }
     });
     let mut required = Vec::new();
